@@ -98,7 +98,7 @@ def extract(config="default", verbose=False):
     key, nfiles = tree_key()
     os.makedirs(CACHE, exist_ok=True)
     out = os.path.join(CACHE, "facts", key, config)
-    lockf = open(os.path.join(CACHE, "lock." + config), "w")
+    lockf = open(os.path.join(CACHE, f"lock.{key}.{config}"), "w")
     fcntl.flock(lockf, fcntl.LOCK_EX)
     try:
         cargo_args, extra_flags, expected = CONFIGS[config]
@@ -139,7 +139,7 @@ def extract(config="default", verbose=False):
         lockf.close()
 
 
-def _prune(root, keep, maxn=8):
+def _prune(root, keep, maxn=60):
     try:
         ents = [(os.path.getmtime(os.path.join(root, d)), d) for d in os.listdir(root)]
     except FileNotFoundError:
